@@ -275,14 +275,14 @@ def equal(a, b, table):
         atoms = num.atoms(sp.Function)
         if not atoms and num.is_polynomial(*num.free_symbols):
             return False
-        if all(isinstance(f, (sp.exp, sp.sin, sp.cos)) or f.func == SIG for f in atoms):
+        if all(isinstance(f, (sp.exp, sp.sin, sp.cos, sp.tan)) or f.func == SIG for f in atoms):
             # substitute the transcendental atoms by fresh symbols: still a non-zero polynomial?
             reps = {f: sp.Dummy("t%d" % i) for i, f in enumerate(sorted(atoms, key=str))}
             n2 = sp.expand(num.subs(reps))
             if n2 != 0 and n2.is_polynomial(*n2.free_symbols):
                 # sin/cos are algebraically dependent (s^2+c^2=1): only decide when no such pair remains
                 fs = {f.func for f in atoms}
-                if not (sp.sin in fs and sp.cos in fs):
+                if len(fs & {sp.sin, sp.cos, sp.tan}) <= 1:
                     return False
         return None
     except Exception:
